@@ -824,6 +824,39 @@ fn main() {
             });
         },
     );
+    // element counts that a single-precision float cannot hold (stride-0 broadcast views: no memory needed)
+    rep.run_sub(
+        "very-long-arrays",
+        "stride-0 broadcast views of 2^24 + 1 and 2^24 + 3 elements: mean of constant i64 (16777217, 5) and f64 (1.0) data is that constant; weighted_mean with unit weights likewise",
+        vec![(1usize << 24) + 1, (1 << 24) + 3].into_iter(),
+        |n, lx| {
+            lx.nontrivial(true);
+            lx.single(|lx| {
+                let mut obs = Vec::new();
+                for c in [16_777_217i64, 5] {
+                    let cell = ndarray::arr0(c);
+                    let v = cell.broadcast(*n).unwrap();
+                    match guarded(|| SummaryStatisticsExt::mean(&v)) {
+                        Ok(Ok(m)) => {
+                            lx.check(m == c, "C06/int-mean-long", || format!("mean of {} copies of {} (i64) = {}", n, c, m));
+                            obs.push(m as u64);
+                        }
+                        other => lx.fail("C06/mean-failed", || format!("mean of {} i64 elements: {:?}", n, other)),
+                    }
+                }
+                let cell = ndarray::arr0(1.0f64);
+                let v = cell.broadcast(*n).unwrap();
+                match guarded(|| (SummaryStatisticsExt::mean(&v), v.weighted_mean(&v))) {
+                    Ok((Ok(m), Ok(wm))) => {
+                        lx.check(m == 1.0 && wm == 1.0, "C06/mean-long", || format!("mean / weighted_mean of {} ones (f64) = {:e} / {:e}", n, m, wm));
+                        obs.push(m.to_bits());
+                    }
+                    other => lx.fail("C06/mean-failed", || format!("mean of {} f64 elements: {:?}", n, other.map(|_| ()))),
+                }
+                hash_of(&obs)
+            });
+        },
+    );
     // operands that alias each other
     let acases = (3..=5usize)
         .flat_map(|m| sequences(m, 4).flat_map(move |d| (0..3u8).map(move |kind| AliasCase { digits: d.clone(), kind })))
